@@ -44,6 +44,7 @@ RULES = [
     ('E4-closure-wildcard1', r'\|_\|', '|_a0|', 'closure wildcard parameter renamed'),
     ('E4-compound-add-deref', r'\*(\w+) \+= (\w+)', r'*\1 = *\1 + \2', '`*x += y` -> `*x = *x + y` (Verus panics on compound assignment through &mut f64)'),
     ('E4-checked-div', r'(\w+)\.checked_div\((\w+)\)', r'vx_checked_div(\1, \2)', '`a.checked_div(b)` -> stand-in with Rust\'s documented truncating semantics (vstd leaves negative operands unspecified)'),
+    ('E4-unimplemented-stmt', r'\bunimplemented!\(\);', 'return vx_unreachable();', '`unimplemented!();` -> `return vx_unreachable();` (call with `requires false`: reachability becomes an obligation)'),
     ('E4-unimplemented', r'\bunimplemented!\(\)', 'vx_unreachable()', '`unimplemented!()` -> call with `requires false` (reachability becomes an obligation)'),
     ('E4-panic', r'\bpanic!\([^;]*\)', 'vx_unreachable()', '`panic!(..)` -> call with `requires false`'),
 ]
@@ -53,6 +54,8 @@ RULES = [
 TYPE_SUBST = [
     ('E2-bufreader', r'BufReader<File>', 'VReader'),
     ('E2-rowset', r'FnvHashSet<Vec<Value>>', 'VRowSet'),
+    ('E2-valueset', r'HashSet<Value>', 'VValueSet'),
+    ('E2-valueset-ctor', r'HashSet::new\(\)', 'VValueSet::new()'),
     ('E2-rowset-ctor', r'FnvHashSet::default\(\)', 'VRowSet::default()'),
 ]
 
@@ -313,7 +316,7 @@ class Expander:
                     # rule E4-arith: `a op b` on plain identifiers -> VxArith::vx_op(a, b) (type-directed stand-in, see prelude)
                     seg = body_text[bs:be]
                     names = {'+': 'vx_add', '-': 'vx_sub', '*': 'vx_mul', '/': 'vx_div'}
-                    seg2, cnt = re.subn(r'(?<![\w.)])(\w+) ([-+*/]) (\w+)(?![\w(.])', lambda m: '%s(%s, %s)' % (names[m.group(2)], m.group(1), m.group(3)), seg)
+                    seg2, cnt = re.subn(r'(?<![\w.)])(\*?\w+) ([-+*/]) (\*?\w+)(?![\w(.])', lambda m: '%s(%s, %s)' % (names[m.group(2)], m.group(1), m.group(3)), seg)
                     seg2, cnt2 = re.subn(r'(?<![\w.)\]] )-(x)\b(?![\w(.])', r'vx_neg(\1)', seg2)
                     if cnt + cnt2:
                         self.rules_fired['E4-arith'] = self.rules_fired.get('E4-arith', 0) + cnt + cnt2
